@@ -242,7 +242,7 @@ def run(ctx):
     for k, (n, edges, grid) in enumerate(work):
         if not ctx.mine(k):
             continue
-        with ctx.guard(1500):
+        with ctx.guard(1500 if not thorough else 3600):
             for part in G.set_partitions(list(range(n))):
                 block_of = [None] * n
                 for b, vs in enumerate(part):
